@@ -81,6 +81,39 @@ EvalOK(e, v, NS) ==
              \* polynomial reproduction: the spline and all its derivatives equal the generating polynomial
              /\ (e.poly # <<>> /\ ~e.lsq => LET p == PDerivN(e.poly, v.m) IN
                     FClose(v.res.re, PEval(p, v.x.re), FAdd(PAbsEval(p, v.x.re), W.sre)))
+\* ---------------------------------------------------------------- the Python-facing spline classes (spline_py.rs)
+\* PPSplineF64 / PPSplineDual / PPSplineDual2: three method families x three abscissa kinds.
+\*   ppev_single / ppdnev_single            a float abscissa only (anything else raises TypeError); result of the spline's kind
+\*   ppev_single_dual / ppdnev_single_dual   float (promoted to a constant) or first order; a second-order abscissa or a
+\*                                           second-order spline raises TypeError; result first order
+\*   ppev_single_dual2 / ppdnev_single_dual2 symmetric
+\* the ppev_* names are the m = 0 case; values are those of the core evaluation (EvalAcc)
+SameStoredNum(x, y) == /\ x.k = y.k /\ x.re = y.re /\ (x.k # "F" => x.vars = y.vars /\ x.d = y.d) /\ (x.k = "D2" => x.raw2 = y.raw2)
+PyFam(f) == IF f \in {"ppev_single", "ppdnev_single"} THEN "plain" ELSE IF f \in {"ppev_single_dual", "ppdnev_single_dual"} THEN "dual" ELSE "dual2"
+PyEvalOK(e, v, C, NS) ==
+  LET fam == PyFam(v.fn) xk == v.x.k
+      m == IF v.fn \in {"ppev_single", "ppev_single_dual", "ppev_single_dual2"} THEN 0 ELSE v.m
+      refuse == CASE fam = "plain" -> xk # "F"
+                  [] fam = "dual" -> xk = "D2" \/ e.kind = "D2"
+                  [] fam = "dual2" -> xk = "D1" \/ e.kind = "D1"
+      kind == CASE fam = "plain" -> e.kind [] fam = "dual" -> "D1" [] fam = "dual2" -> "D2"
+  IN IF refuse THEN v.o = "TypeError"
+     ELSE /\ v.o = "ok" /\ IsNum(v.res) /\ v.res.k = kind /\ ShapeOK(v.res)
+          /\ CloseTo(v.res, EvalAcc(e.t, e.k, C, m, Abstract(v.x, NS), xk = "F", 0, ZeroW(NS), NS), NS)
+PyOK(e, C, NS) ==
+  LET p == e.py IN
+  /\ ~("fail" \in DOMAIN p)
+  /\ p.n = e.n /\ p.k = e.k /\ p.t = e.t /\ p.copy_eq                               \* a copy equals its original
+  /\ Len(p.c) = Len(e.c) /\ \A i \in 1..Len(e.c) : SameStoredNum(p.c[i], e.c[i])      \* same solve, bit for bit
+  /\ \A q \in 1..Len(p.ev) : PyEvalOK(e, p.ev[q], C, NS)
+  /\ Len(p.ppev) = Len(p.vx) /\ Len(p.ppdnev1) = Len(p.vx) /\ Len(p.bsplev0) = Len(p.vx) /\ Len(p.bspldnev_last1) = Len(p.vx)
+  /\ \A q \in 1..Len(p.vx) :
+        LET x == Const(p.vx[q], NS)
+            W0 == EvalAcc(e.t, e.k, C, 0, x, TRUE, 0, ZeroW(NS), NS) W1 == EvalAcc(e.t, e.k, C, 1, x, TRUE, 0, ZeroW(NS), NS)
+            b0 == DBasis(e.t, 0, e.k, 0, p.vx[q]) b1 == DBasis(e.t, e.n - 1, e.k, 1, p.vx[q])
+        IN /\ p.ppev[q].k = e.kind /\ CloseTo(p.ppev[q], W0, NS)                      \* the vector methods, point by point
+           /\ p.ppdnev1[q].k = e.kind /\ CloseTo(p.ppdnev1[q], W1, NS)
+           /\ FClose(p.bsplev0[q], b0.v, b0.s) /\ FClose(p.bspldnev_last1[q], b1.v, b1.s)
 SplineOK(e) ==
   LET n == e.n ntau == Len(e.tau) IN
   IF (ntau # n /\ ~(e.lsq /\ ntau > n)) \/ Len(e.y) # ntau THEN e.o = "err"           \* mismatched counts are reported as errors
@@ -97,6 +130,7 @@ SplineOK(e) ==
                        /\ \A nm \in NS : FClose(W.g[nm], Y.g[nm], FAdd(W.sg[nm], FAbs(Y.g[nm])))
                        /\ \A p \in NS \X NS : FClose(W.h[p], Y.h[p], FAdd(W.sh[p], FAbs(Y.h[p]))))
              /\ \A q \in 1..Len(e.ev) : EvalOK(e, e.ev[q], NS)
+             /\ ("py" \in DOMAIN e => PyOK(e, C, NS))
              \* sensitivity to datum j = the spline solved on the unit data e_j (which itself must collocate)
              /\ ("unit" \in DOMAIN e => \A j \in 1..Len(e.unit) :
                     LET U == [i \in 1..n |-> Const(e.unit[j][i], NS)] IN
